@@ -27,6 +27,7 @@ import (
 type e3Case struct {
 	Stream string  `json:"stream"` // base64
 	Cuts   [][]int `json:"cuts"`   // each: chunk sizes (remainder = last chunk)
+	Poison string  `json:"poison"` // base64: fed to a throw-away connection that is closed mid-request before every run
 }
 
 type e3In struct {
@@ -192,7 +193,12 @@ func TestVerifChunks(t *testing.T) {
 			t.Fatal(err)
 		}
 		var runs []e3Run
+		poison, _ := base64.StdEncoding.DecodeString(cs.Poison)
 		for si, cuts := range cs.Cuts {
+			if len(poison) > 0 {
+				// another client sends part of a request in two reads and hangs up
+				_ = e3Feed(t, &in, poison, []int{len(poison) / 2})
+			}
 			os.WriteFile(outPath+".last", []byte(strconv.Itoa(ci)+" "+strconv.Itoa(si)), 0o644)
 			runs = append(runs, e3Feed(t, &in, stream, cuts))
 		}
